@@ -48,9 +48,9 @@ func verifReplyKind(r *reply, msg unixsocket.Msg) string {
 		return "result"
 	case r.BatchErrors != nil:
 		return "batch"
-	case msg.Cred != nil:
-		return "pid"
 	}
+	// an empty reply is an acknowledgement or the sync message of Execve: the two are the
+	// same message on the wire (the host socket attaches credentials to every message)
 	return "ack"
 }
 
